@@ -160,11 +160,28 @@ def var_rep_depth(node):
     return 0
 
 
+def var_inside_rep(node, inside=False):
+    """is there a quantifier with a variable count inside another quantifier (of any kind)?  `(?:a{0,64}){44}` makes the
+    matcher enumerate the ways of cutting a run of a's into 44 pieces"""
+    k = node[0]
+    if k == "rep":
+        q = node[2]
+        variable = not (isinstance(q, list) and q[0] == "n")
+        if inside and variable:
+            return True
+        return var_inside_rep(node[1], True)
+    if k == "grp":
+        return var_inside_rep(node[2], inside)
+    if k in ("alt", "seq"):
+        return any(var_inside_rep(n, inside) for n in node[1])
+    return False
+
+
 def is_cheap_to_match(node):
-    """no variable quantifier inside a variable quantifier (fixed counts `{n}` may nest once) and at most two
+    """no variable quantifier inside another quantifier (a fixed count `{n}` may sit inside one) and at most two
     open-ended quantifiers: matching (also *failing* to match, which is what re.search / Hypothesis' from_regex
     do a lot) stays polynomial with a small degree"""
-    return rep_depth(node) <= 2 and var_rep_depth(node) <= 1 and count_unbounded(node) <= 2
+    return rep_depth(node) <= 2 and not var_inside_rep(node) and count_unbounded(node) <= 2
 
 
 @st.composite
